@@ -44,7 +44,7 @@ pub fn run_gen(tier: &str, seed: u64, out: &mut Out) {
                 _ => format!("<v {}=\"{{{{ {} }}}}\"/>", name, text),
             };
             let mut g = TmplGroup::new();
-            let diags = g.add_tmpl("p", &src);
+            let diags = { crate::util::note_input(&*src); g.add_tmpl("p", &src) };
             let bad = diags.iter().any(|d| d.kind.level() as u8 >= 3);
             let tree = g.get_tree("p").unwrap();
             // locate the expression in the parsed tree
@@ -100,7 +100,7 @@ pub fn run_val(tier: &str, seed: u64, out: &mut Out) {
         let text = e.wxml(&mut extra);
         let src = format!("<v a=\"{{{{ {} }}}}\"/>", text);
         let mut g = TmplGroup::new();
-        let diags = g.add_tmpl("p", &src);
+        let diags = { crate::util::note_input(&*src); g.add_tmpl("p", &src) };
         let max_level = diags.iter().map(|d| d.kind.level() as u8).max().unwrap_or(0);
         let bundle = g.get_tmpl_gen_object_groups().unwrap_or_default();
         let reference = e.reference_js(&|_| None);
@@ -187,7 +187,7 @@ pub fn run_guardden(tier: &str, seed: u64, out: &mut Out) {
         let text = frag_expr(&mut rng, 1 + i % 3);
         let src = format!("<v a=\"{{{{ {} }}}}\"/>", text);
         let mut g = TmplGroup::new();
-        g.add_tmpl("p", &src);
+        { crate::util::note_input(&*src); g.add_tmpl("p", &src) };
         let tree = g.get_tree("p").unwrap();
         let sx = match tree.content.get(0) {
             Some(Node::Element(el)) => match &el.kind {
